@@ -16,6 +16,8 @@ the discriminant of X itself is only a presence/shape test).
   M-ABSENT    every Option/Result obtained from the message (header getter, body deserialisation, slice
               get, TryFrom<&Value>, strip_prefix …) whose discriminant `matches` branches on has its
               None/Err edge leading only to Ok(false); header getters must be branched on or compared whole
+  M-ARGTYPE   the Value→&str conversion `matches` uses for argN accepts exactly {Str}; the one for argNpath
+              accepts ObjectPath (and at most Str besides)
   M-PREFIX    the PathNamespace payload and arg0namespace reach a prefix test (str::starts_with /
               strip_prefix) as the pattern
   M-BOUNDARY  a prefix test whose pattern is the bare rule value (not a value with a separator appended)
@@ -113,6 +115,7 @@ def run(ctx):
     fblocks = ok_false_blocks(m)
     ctx.floor("M-MISMATCH", "Ok(false) return sites in matches", len(fblocks), 1)
     rule_root_namespace(ctx, f, m)
+    rule_arg_type(ctx, f, m)
     cdeps = {b: sf.control_deps(m, b) for b in fblocks}
     msg_t = sf.Taint(m, {2})
 
@@ -274,6 +277,48 @@ def run(ctx):
                "prefix test on the bare value of %s decides alone (no test of the remainder / next character on its success edge): "
                "a value that merely starts with the same text is accepted, e.g. `/foobar` for `/foo`, `org.foobar` for `org.foo`" % "+".join(owners),
                c.where)
+
+
+def rule_arg_type(ctx, f, m):
+    """M-ARGTYPE (added after seeded change C21b): `argN='text'` selects STRING arguments only, and `matches`
+    enforces that by letting `<&str as TryFrom<&Value>>` fail for anything else. The rule therefore reaches into
+    that conversion: the set of Value variants it accepts must be exactly {Str} (the seed made it accept
+    ObjectPath as a convenience). Same for the conversion used for argNpath: it must accept ObjectPath and
+    nothing that is neither a string nor a path."""
+    from . import C08
+    want = {"&str": ({"Str"}, {"Str"}), "zvariant::object_path::ObjectPath": ({"ObjectPath"}, {"ObjectPath", "Str"})}
+    n = 0
+    for c in mir.calls(m):
+        if not (c.is_("try_from", "try_into") and "TryFrom<&" in c.callee and "zvariant::value::Value" in c.callee):
+            continue
+        tb = f.bodies.get(c.callee)
+        if tb is None:
+            ctx.ob("M-ARGTYPE", "conversion-body:" + short_full(c), False, "body of the conversion not in the analysed facts", c.where)
+            continue
+        self_ty = C08.norm_type(tb.d.get("impl_self") or "")
+        key = "&str" if self_ty in ("str", "&str") else self_ty
+        n += 1
+        sws = C08.value_switches(tb, f)
+        acc = None
+        if sws:
+            acc = set()
+            for sb, place, arms, other in sws:
+                inc = {a[0] for a in C08.aggregates(tb, "zvariant::error::Error") if a[3][3] == "IncorrectType"}
+                tab = C08.arm_table(tb, f, sb, arms, other)
+                for v, tgt in tab.items():
+                    if not (inc & mir.reachable(tb, [tgt])):
+                        acc.add(v)
+        must, may = want.get(key, (None, None))
+        if must is None:
+            ctx.ob("M-ARGTYPE", "conversion-known:" + key, False,
+                   "matches converts a body argument with a conversion the rule has no specification for", c.where)
+            continue
+        ok = acc is not None and must <= acc <= may
+        ctx.ob("M-ARGTYPE", "accepted-value-types:" + key, ok,
+               "conversion to %s accepts exactly %s" % (key, sorted(acc)) if ok else
+               "conversion to %s accepts %s; the match key may only select %s" % (key, sorted(acc) if acc is not None else "?", sorted(may)),
+               tb.where)
+    ctx.floor("M-ARGTYPE", "body-argument conversions in matches", n, 2)
 
 
 def rule_root_namespace(ctx, f, m):
